@@ -92,6 +92,11 @@ fn run(ctx: &Ctx) {
     ctx.run_enum("golden", golden, true, "every row of the pinned golden copy x 10 columns", (0..ngold as u32).map(|i| vec![(i >> 8) as u8, i as u8]));
     ctx.run_enum("ids", ids, true, "all 65536 ids x 4 lookup routes", (0..=65535u32).map(|i| vec![(i >> 8) as u8, i as u8]));
     ctx.run_enum("derived", derived, true, "derived sizes and name-token agreement for every row", (0..nfile as u32).map(|i| vec![(i >> 8) as u8, i as u8]));
+    // "nothing for any other string", by volume: a lookup that compares less than the whole name (a truncated hash, a prefix, a
+    // checksum) answers for some unregistered string; with a 32-bit digest one string in 12 million hits one of the 352 names
+    let per = ctx.pick(16_000_000, 100_000_000) as u64;
+    let seed = ctx.seed;
+    ctx.run_fn("names_volume", false, &format!("8 threads x {} generated unregistered names (4 shapes) through both by-name routes", per), move |obs| names_volume(obs, per, seed));
     ctx.run_tape("names", names, ctx.pick(200_000, 400_000), 64);
 }
 
@@ -230,6 +235,62 @@ fn derived(t: &mut Tape, obs: &mut Obs) -> R {
         ensure!(format!("{:?}", s.prf) == p, sig("name-prf"), "{}: PRF is {:?}, the trailing hash of the AEAD name states {}", s.name, s.prf, p);
     }
     obs.sample(json!({"name": s.name, "key_bytes": s.enc_key_size(), "block": s.enc_block_size(), "mac_len": s.mac_length(), "name_facts": format!("{:?}", f)}));
+    Ok(())
+}
+
+fn names_volume(obs: &mut Obs, per_thread: u64, seed: u64) -> R {
+    let tb = tabs()?;
+    let known: std::collections::HashSet<&str> = tb.file.iter().map(|r| r.name.as_str()).collect();
+    let prefixes: Vec<String> = {
+        let mut v: Vec<String> = vec!["TLS_".into(), "TLS_RSA_WITH_".into(), "TLS_ECDHE_RSA_WITH_AES_128_GCM_SHA256_".into(), "".into()];
+        v.push(tb.file[(seed as usize) % tb.file.len()].name.clone() + "_");
+        v
+    };
+    let results: Vec<Result<u64, (String, String)>> = std::thread::scope(|s| {
+        let hs: Vec<_> = (0..8u64)
+            .map(|ti| {
+                let prefixes = &prefixes;
+                let known = &known;
+                s.spawn(move || {
+                    const AL: &[u8; 36] = b"ABCDEFGHIJKLMNOPQRSTUVWXYZ0123456789";
+                    let mut x = (seed ^ 0xC12).wrapping_mul(0x9E37_79B9_7F4A_7C15).wrapping_add(ti.wrapping_mul(0xD1B5_4A32_D192_ED03)) | 1;
+                    let mut buf = String::with_capacity(64);
+                    for k in 0..per_thread {
+                        x ^= x << 13;
+                        x ^= x >> 7;
+                        x ^= x << 17;
+                        let pre = &prefixes[(k % prefixes.len() as u64) as usize];
+                        buf.clear();
+                        buf.push_str(pre);
+                        let mut v = x;
+                        for _ in 0..6 + (k % 3) {
+                            buf.push(AL[(v % 36) as usize] as char);
+                            v /= 36;
+                        }
+                        let a = TlsCipherSuite::from_name(&buf);
+                        let b = if k % 4 == 0 { <&'static TlsCipherSuite>::try_from(buf.as_str()).ok() } else { None };
+                        if (a.is_some() || b.is_some()) && !known.contains(buf.as_str()) {
+                            let (route, c) = if let Some(c) = a { ("from_name", c) } else { ("TryFrom<&str>", b.unwrap()) };
+                            return Err((format!("C12:names:{}:phantom", route), format!("{}({:?}) returned {:04x} {} although no suite has that name", route, buf, c.id.0, c.name)));
+                        }
+                        if k % 65536 == 0 {
+                            crate::alloc::progress();
+                        }
+                    }
+                    Ok(per_thread + per_thread / 4)
+                })
+            })
+            .collect();
+        hs.into_iter().map(|h| h.join().unwrap_or_else(|_| Err(("panic:names_volume".to_string(), "a lookup thread panicked".to_string())))).collect()
+    });
+    for r in results {
+        match r {
+            Ok(d) => obs.evals_add(d),
+            Err((sig, msg)) => return fail(sig, msg),
+        }
+    }
+    obs.nontrivial(per_thread);
+    obs.sample(json!({"threads": 8, "unregistered_names_per_thread": per_thread, "shapes": prefixes.iter().map(|p| format!("{}<6-8 of A-Z0-9>", p)).collect::<Vec<_>>()}));
     Ok(())
 }
 
